@@ -130,7 +130,9 @@ struct Exec {
   }
 
   // far jmp/call to an absolute address: creates / grows the address table
+  bool used_far = false;
   void far(uint32_t id, unsigned target, bool call) {
+    used_far = true;
     if (!code.is_section_valid(id)) return;
     Section* s = code.section_by_id(id);
     if (s == code._address_table_section) return;
@@ -240,7 +242,46 @@ struct Exec {
     end();                                    // an execution without End was cut short (crash) and is rejected
   }
 
+  // Alternative tail (jitruntime.cpp is part of C10's code): JitRuntime::_add lays the sections out itself (flatten +
+  // relocate) and copies them into executable memory - "writes each section's bytes at its offset, zero-fills padding".
+  // The memory handed out by the allocator holds the fill pattern kU, so a byte that was not written shows. Recorded as
+  // the events the contract already knows: Flatten (layout after _add; executions with far jumps are excluded, so
+  // relocation does not change it) and Copy of exactly code_size() bytes with the pad-section flag.
+  bool install_tail(unsigned salt) {
+    lookup(".text");
+    code_size();
+    JitAllocator::CreateParams params;
+    params.options = JitAllocatorOptions::kFillUnusedMemory | JitAllocatorOptions::kCustomFillPattern | ((salt & 8) ? JitAllocatorOptions::kUseDualMapping : JitAllocatorOptions::kNone);
+    params.fill_pattern = 0x01010101u * kU;
+    JitRuntime rt(&params);
+    void* p = nullptr;
+    Error err = rt._add(&p, &code);
+    if (err != Error::kOk || !p) {
+      w.beginObj().kv("e", "Note").kv("what", "install-refused").kv("r", err_name(err)).endObj().emit(out);
+      return false;
+    }
+    std::vector<long long> dummy;
+    w.beginObj().kv("e", "Flatten").kv("r", "Ok");
+    table("secs", false);
+    w.kv("same", false);
+    w.key("byorder").beginArr();
+    for (Section* s : code.sections_by_order()) w.val((long long)s->section_id());
+    w.endArr();
+    w.endObj().emit(out);
+    size_t size = code.code_size();
+    code_size();
+    std::vector<uint8_t> guard(kGuard, kU);
+    w.beginObj().kv("e", "Copy").kv("size", (long long)size).kv("flags", 1).kv("r", "Ok");
+    rle(w, "runs", static_cast<const uint8_t*>(p), size);
+    rle(w, "gpre", guard.data(), kGuard);
+    rle(w, "gpost", guard.data(), kGuard);
+    w.endObj().emit(out);
+    rt._release(p);
+    return true;
+  }
+
   void tail(const std::vector<Copy>& copies, unsigned seccopies, unsigned salt) {
+    if (!used_far && salt % 4 == 3) { install_tail(salt); return; }
     lookup(".text");
     for (size_t i = 0; i < names.size() && i < 4; i++) lookup(names[(salt + i) % names.size()]);   // after everything else was created
     code_size();                              // estimate before flatten
